@@ -22,6 +22,8 @@ AnyPos == -1
 Size(st) == Len(st.data)
 
 \* ------------------------------------------------------------------ results
+\* (for the raw / typed accessors of C04 ResErr is THE out-of-bounds error: the harness reports an error of another kind
+\*  with v = <<-2>>, which no outcome allows; for every other call it is "an error")
 ResErr == [ok |-> FALSE, some |-> FALSE, v |-> <<>>]
 ResUnit == [ok |-> TRUE, some |-> FALSE, v |-> <<>>]
 ResNone == [ok |-> TRUE, some |-> FALSE, v |-> <<>>]
